@@ -162,6 +162,13 @@ func genDag(tp *simrt.Tape, o stepGenOpts) *DagSpec {
 			s.FailFirst = 0
 			s.RetryLimit = -1
 		}
+		if o.sigMix && !s.Repeat && chance(tp, 1, 8) {
+			// the command exits at once but leaves a background process in its group that holds its output open
+			// (a repeating step is not signalled on stop, so it is left out here)
+			s.BgMs = pick(tp, 20000, 45000)
+			s.DurMs = []int{pick(tp, 0, 50)}
+			s.OnTerm, s.FailFirst, s.RetryLimit = "exit", 0, -1
+		}
 		steps[i] = s
 	}
 	// shuffle declaration order
